@@ -1506,7 +1506,8 @@ def unwrap(t: tp.Any) -> tp.Any:
 
         if hasattr(t, "__supertype__"):
             lt = t
-            t = t.__supertype__
+            st = t.__supertype__
+            t = st if st is not None else type(None)
             continue
 
         if type(t) is tp.TypeVar:
